@@ -23,7 +23,10 @@ BadKinds(v, T) ==
   \cup { Vote(v, "nil", "missing", Px(T, 2)), Vote(v, "absent", "ok", NoExt), Vote(v, "commit", "ok", Garbage) }
 Extras(T) ==
   { << >>, << Vote("a", "commit", "ok", Px(T, 2)) >>, << Vote("z", "commit", "ok", Px(T, 2)) >>, << Vote("z", "commit", "bad", Px(T, 2)) >>,
-    << Vote("z", "commit", "ok", Garbage) >>, << Vote("a", "commit", "ok", Px(T, 2)), Vote("a", "commit", "ok", Px(T, 2)) >> }
+    << Vote("z", "commit", "ok", Garbage) >>, << Vote("a", "commit", "ok", Px(T, 2)), Vote("a", "commit", "ok", Px(T, 2)) >>,
+    \* repeated entries of validators that already voted, carrying other prices under a signature that does not verify
+    << Vote("a", "commit", "bad", Px(T, 2)) >>,
+    << Vote("a", "commit", "bad", Px(T, 2)), Vote("b", "commit", "bad", Px(T, 2)), Vote("c", "commit", "bad", Px(T, 2)) >> }
 
 VoteLists(T) ==
   { <<x, y, z>> \o ex : x \in Kinds("a", T), y \in Kinds("b", T), z \in Kinds("c", T), ex \in Extras(T) }
